@@ -169,13 +169,12 @@ class Token:
 		Returns:
 			合成後のトークン
 		"""
-		new_string = ''.join([self.string, *[token.string for token in others]])
-		new_map = self.SourceMap(
-			min([token.source_map.begin_line for token in others]),
-			min([token.source_map.begin_column for token in others]),
-			max([token.source_map.end_line for token in others]),
-			max([token.source_map.end_column for token in others]),
-		)
+		tokens = [self, *others]
+		new_string = ''.join([token.string for token in tokens])
+		# 合成後の範囲は、最も手前のトークンの開始位置から最も後方のトークンの終了位置まで(行と列は組で比較する)
+		first = min(tokens, key=lambda token: (token.source_map.begin_line, token.source_map.begin_column))
+		last = max(tokens, key=lambda token: (token.source_map.end_line, token.source_map.end_column))
+		new_map = self.SourceMap(first.source_map.begin_line, first.source_map.begin_column, last.source_map.end_line, last.source_map.end_column)
 		return Token(self.type, new_string, new_map)
 
 	def __repr__(self) -> str:
